@@ -173,6 +173,40 @@ def check_one(t, src, envs):
             return
 
 
+def check_batch(t, srcs, rounds=3):
+    """ONE transformer object used for a whole batch of queries, each dropped once looked at (the
+    class is public and holds no documented state: its answer may depend on the node it is given
+    and on nothing that came before; seed C19_h memoises by id(node))."""
+    import gc
+    from func_adl.ast.aggregate_shortcuts import aggregate_node_transformer
+    shared = aggregate_node_transformer()
+    t.contract("aggregate_node_transformer.visit: same answer from a re-used transformer object")
+    done = []
+    for r in range(rounds):
+        for src in srcs:
+            done.append(src)
+            e = parse_expr(src)
+            expected = spec_agg.agg_lower(copy.deepcopy(e))
+            try:
+                got = shared.visit(e)
+            except Exception as ex:
+                got = ex
+            ok = not isinstance(got, Exception) and specrt.same(got, expected)
+            del e
+            if not ok:
+                t.case("C19:batch:" + src, True, sample=src)
+                t.violation("aggregate_node_transformer.visit:ensures same(result, agg_lower(node))",
+                            f"a transformer object that already lowered {len(done) - 1} other "
+                            "queries lowers this one differently", src,
+                            "<spec tree>" if _has_marker(expected) else unparse(expected),
+                            repr(got) if isinstance(got, Exception) else unparse(got),
+                            {"kind": "C19", "batch": done[-400:], "rounds": 1})
+                return
+            del got
+        gc.collect()
+    t.case("C19:batch of %d" % len(srcs), True, sample="one transformer object, %d rounds" % rounds)
+
+
 def _has_marker(n):
     return any(isinstance(x, specrt.FoldLambda) for x in _walk_all(n))
 
@@ -219,9 +253,14 @@ def run(t):
     t.bounds.append(f"{len(srcs)} expressions x {len(envs)} integer data sets (lists of length <= 5 over -3..5)")
     for s in srcs:
         check_one(t, s, envs)
+    check_batch(t, srcs)
+    t.bounds.append(f"one re-used transformer object over the {len(srcs)} expressions x 3 rounds")
 
 
 def replay(payload, t):
+    if "batch" in payload:
+        check_batch(t, payload["batch"], payload.get("rounds", 1))
+        return not t.violations
     envs = [(payload["a"], payload["b"], payload["ll"])] if "a" in payload else envs_for("quick", t.rng)
     check_one(t, payload["src"], envs)
     return not t.violations
